@@ -6,7 +6,7 @@
    [rbit r j]: the bit reader r sees at absolute position j (the data bit when inside the data and below the limit, else 0). *)
 From Coq Require Import ZArith List Bool.
 From PV Require Import BLS.Model Layout.Types Serdes.Model Serdes.Bits Serdes.ReaderProofs Serdes.Spec Serdes.DeserProofs
-  Serdes.Roundtrip Serdes.DeserSim Serdes.ZeroExt Serdes.ProofsReject Serdes.DecodedValid Serdes.DeserTrunc.
+  Serdes.Roundtrip Serdes.DeserSim Serdes.ZeroExt Serdes.ProofsReject Serdes.DecodedValid Serdes.DeserTrunc Serdes.DeserSimConv.
 Import ListNotations.
 Open Scope Z_scope.
 
@@ -56,6 +56,13 @@ Theorem C07_zero_ext : forall t b n hdr v, wft t = true -> bytes_ok b ->
   deserialize t b hdr = Ok v -> deserialize t (b ++ zeros n) hdr = Ok v.
 Proof. exact zero_ext. Qed.
 Print Assumptions C07_zero_ext.
+
+(* ... and conversely: if b followed by zero bytes decodes, b itself decodes alike - unless a delimiter header then
+   exceeds the available data (the one exception the property names); no other outcome is possible *)
+Theorem C07_zero_ext_conv : forall t b n hdr v, wft t = true -> bytes_ok b ->
+  deserialize t (b ++ zeros n) hdr = Ok v -> deserialize t b hdr = Ok v \/ deserialize t b hdr = Err EDelimHeader.
+Proof. exact zero_ext_conv. Qed.
+Print Assumptions C07_zero_ext_conv.
 
 (* more generally: a reader that sees the same bits from its position on and has at least as much data left decodes alike *)
 Theorem C07_same_bits_same_value : forall t, wft t = true -> forall r1 r2 v r1', RS r1 r2 -> deser t r1 = Ok (v, r1') ->
